@@ -163,6 +163,7 @@ func runC01(c *Ctx, w *World, r *Report) {
 	ReportScale(w, r, names...)
 	ReportPair(w, r, names...)
 	ReportRound(w, r, names...)
+	reportFresh(w, r, "bitmap.IndexRank64", "bitmap.IndexRank128")
 	if !ok {
 		return
 	}
